@@ -3,4 +3,8 @@ pub mod models;
 pub mod report;
 pub mod walk;
 pub mod refs;
+pub mod isolate;
+pub mod mcheck;
+pub mod mfam;
+pub mod mfam2;
 pub mod props;
